@@ -89,8 +89,8 @@ def ipParseRec (c : Config) : List IpTField → Nat → P (List Rec)
       | none => none
       | some (es, r') => some ([(idx, ipFieldDisc c f, v)] :: es, r')
 
-/-- `FieldParser::parse` : recursion, one frame per record.  Fuel stands for the stack:
-    with a record that consumes 0 bytes the Rust recursion never returns. -/
+/-- `FieldParser::parse` : one loop iteration per record (the fuel is only there to make the
+    definition structural; `ipRecLoop_no_overflow` shows it never runs out). -/
 def ipRecLoop (c : Config) (fs : List IpTField) : Nat → Bytes → Res (List Rec × Bytes)
   | 0, _ => .overflow
   | fuel + 1, i =>
@@ -98,7 +98,8 @@ def ipRecLoop (c : Config) (fs : List IpTField) : Nat → Bytes → Res (List Re
     | none => .err
     | some (es, r) =>
       let taken := i.length - r.length
-      if r.length ≥ taken then
+      if taken = 0 then .ok (es, r)            -- `total_taken == 0 → break`
+      else if r.length ≥ taken then
         match ipRecLoop c fs fuel r with
         | .ok (more, r') => .ok (es ++ more, r')
         | .err => .err
@@ -110,13 +111,13 @@ def ipRecLoop (c : Config) (fs : List IpTField) : Nat → Bytes → Res (List Re
 def ipParseBody (c : Config) (st : PState) (id : Nat) (body : Bytes) : PState × Res IpBody :=
   if id < c.t.ipSetMinRange ∧ id ≠ c.t.ipOptTemplateId then
     match parseIpTemplate body with
-    | .ok t => if ipValid t.fields then ({ st with ipT := amInsert t.id t st.ipT }, .ok (.template t)) else (st, .err)
+    | .ok t => if ipValid t.fields then ({ st with ipT := amInsert t.id t st.ipT, ipO := amErase t.id st.ipO }, .ok (.template t)) else (st, .err)
     | .err => (st, .err)
     | .panic => (st, .panic)
     | .overflow => (st, .overflow)
   else if id = c.t.ipOptTemplateId then
     match parseIpOptTemplate body with
-    | .ok t => if ipValid t.fields then ({ st with ipO := amInsert t.id t st.ipO }, .ok (.optTemplate t)) else (st, .err)
+    | .ok t => if ipValid t.fields then ({ st with ipO := amInsert t.id t st.ipO, ipT := amErase t.id st.ipT }, .ok (.optTemplate t)) else (st, .err)
     | .err => (st, .err)
     | .panic => (st, .panic)
     | .overflow => (st, .overflow)
